@@ -252,6 +252,31 @@ func runC13(r *Rng, n int, tier string) {
 				}
 				tags = append(tags, "file-move")
 			}
+			// (e) the same project with one more setting (a rename entry), in THIS process — which has generated
+			// the project without it — and in a fresh one: what an earlier run did must not show
+			if p.RawSchema == "" && i%3 == 0 {
+				pr := p
+				pr.Rename = map[string]string{}
+				for k, v := range p.Rename {
+					pr.Rename[k] = v
+				}
+				t0 := p.Tables[0]
+				pr.Rename[t0.Cols[len(t0.Cols)-1].Name] = "RenamedLast"
+				pr.Rename[strings.TrimSuffix(t0.Name, "s")] = "RenamedModel"
+				files := pr.Files()
+				here := generate(files)
+				if here.OK() {
+					if h := freshProcessHashes(files); h != hashesString(here) && oracle == "" {
+						oracle = "with a rename entry added, this process (which generated the project without it before) and a fresh process produce different output"
+						detail = J{"files": files}
+					}
+					again := generate(p.Files())
+					if !same(again) {
+						fail("generating the project again after a variant of it with a rename entry differs from the first run", p.Files(), again)
+					}
+				}
+				tags = append(tags, "settings-variant")
+			}
 		} else {
 			tags = append(tags, "failing-input")
 		}
